@@ -664,7 +664,26 @@ def check_C07(tier, seed, replay=None):
     run = Run("C07", tier, seed)
     rng = random.Random(seed)
     specs = F.c07_specs(rng, 1200 if tier == "quick" else 12000)
-    groups = [F.c07_group(i + 1, sp) for i, sp in enumerate(specs)]
+    builders = [(lambda gi, sp=sp: F.c07_group(gi, sp)) for sp in specs]
+    # dense left-call graphs: several left-recursive alternatives per rule, cycles with and without a common rule
+    from peg import Gram as _G
+
+    def dense(gi, sd):
+        r_ = random.Random(sd)
+        nr = r_.randint(2, 4)
+        g = _G(gi)
+        roots = []
+        for ri in range(nr):
+            alts = [g.seq([g.ref(r_.randint(1, nr)), g.lit([F.A + r_.randint(0, 1)])]) for _ in range(r_.randint(1, 3))] + [g.lit([F.B])]
+            roots.append(g.choice(alts))
+        g.rules = roots
+        g.disp = [""] * nr
+        g.compute_args()
+        g.maydiverge = True
+        return g
+    for k_ in range(150 if tier == "quick" else 1500):
+        builders.append(lambda gi, sd=seed * 1000 + k_: dense(gi, sd))
+    groups = [b(i + 1) for i, b in enumerate(builders)]
     pigeon = P.build_pigeon()
     res = run_pigeon_each(groups, [], pigeon)
     obs, accepted = [], []
@@ -692,7 +711,7 @@ def check_C07(tier, seed, replay=None):
     run2 = Run("C07", tier, seed)
     acc2 = []
     for i, g in enumerate(accepted[: 400 if tier == "quick" else 4000]):
-        g2 = F.c07_group(i + 1, specs[g.gi - 1])
+        g2 = builders[g.gi - 1](i + 1)
         acc2.append(g2)
     nin = len(inputs)
     run2.keep_debug = True
